@@ -103,6 +103,37 @@ def lock_role(it, p, lockterm):
     return None
 
 
+_SUBMIT_ROLES = {}
+
+
+def submit_lock_roles(ctx, cls):
+    """lock roles (owner class, field) acquired somewhere along cls.submit(), helpers inlined"""
+    if cls.key not in _SUBMIT_ROLES:
+        out = []
+        o, sm = cls.lookup("submit")
+        if sm is not None:
+            try:
+                ps, it = ctx.paths(sm, cls, depth=4, maxpaths=6000)
+            except AnalysisError:
+                ps, it = ctx.paths(sm, cls, depth=2, maxpaths=6000)
+            for p in ps:
+                for e in p.events:
+                    if e.kind == "enter":
+                        r = lock_role(it, p, e.d[1])
+                        if r and r not in out and r[0] in EXEC_LEVEL(ctx):
+                            out.append(r)
+        _SUBMIT_ROLES[cls.key] = out
+    return _SUBMIT_ROLES[cls.key]
+
+
+def EXEC_LEVEL(ctx):
+    """classes whose locks exist once per executor (not once per future)"""
+    if getattr(ctx, "_exec_level", None) is None:
+        helper, _f = helper_lock_field(ctx)
+        ctx._exec_level = set(c.name for c in ctx.executor_classes()) | {helper.name}
+    return ctx._exec_level
+
+
 def fresh(term, p):
     """a future object allocated on this very path (nobody else can hold it yet)"""
     return isinstance(term, tuple) and term[0] in ("new", "extnew")
@@ -129,6 +160,7 @@ def check(ctx, rep):
     rep.count("entry points analysed (public methods, worker loops, callbacks, combinators)", len(rs), 120)
     n_user = n_disp = n_enter = n_block = 0
     edges = {}
+    reentry = {}
     locks_seen = {}
     for m, ci, why in sorted(rs, key=lambda x: (x[0].key, x[1].key if x[1] else "")):
         ps = None
@@ -153,8 +185,12 @@ def check(ctx, rep):
                     role = lock_role(it, p, lk[1])
                     if role:
                         locks_seen.setdefault(role, set()).add(lk[2])
-                    # e.locks = locks held *before* this acquisition
+                    # e.locks = locks held *before* this acquisition.  Taking a lock this thread already holds does
+                    # not wait (it has to be re-entrant, checked below), so it orders nothing.
+                    again = any(h[1] == lk[1] for h in e.locks)
                     for h in e.locks:
+                        if again and h[1] != lk[1]:
+                            continue
                         if h[1] == lk[1]:
                             rep.ob("R-LOCK-KIND", "%s re-acquired while held" % _role_s(role), lk[2] == "RLock",
                                    "%s (%s) is acquired at %s while the same lock is already held on this path from %s: a %s blocks on itself" % (fmt(lk[1]), lk[2], e.where(), rname, lk[2]), where_of(e.fn, e.node), trace_of(p, e.seq))
@@ -166,6 +202,23 @@ def check(ctx, rep):
                     d = e.d
                     name = q.call_name(e)
                     hard = [l for l in e.locks if l[2] == "Lock"]
+                    # a delegate's submit() may run the callable on the spot (the sync executor), and that callable
+                    # may submit to this same executor: the locks submit() takes are then taken *after* every
+                    # executor-level lock held here.  (Re-entrant acquisition of a lock already held does not wait,
+                    # and a future's own lock is a different object for every future: neither gives an order.)
+                    r0 = q.recv(e)
+                    if name == "submit" and d["callee"] is None and isinstance(r0, tuple) and r0[0] == "attr" and e.locks:
+                        xt = it.type_of(r0[1], p)
+                        xc = ctx.types.cls_of(xt) if xt else None
+                        if xc is not None and xc in ctx.executor_classes() and r0[2] == roles.delegate_field(ctx, xc):
+                            held_roles = [(lock_role(it, p, h[1]), h) for h in e.locks]
+                            held_set = set(hr for hr, h in held_roles if hr)
+                            for a_role in submit_lock_roles(ctx, xc):
+                                if a_role in held_set:
+                                    continue
+                                for hr, h in held_roles:
+                                    if hr and hr[0] in EXEC_LEVEL(ctx) and hr != a_role:
+                                        reentry.setdefault((hr, a_role), (e, p, rname, h[1], xc.name))
                     if d.get("user"):
                         n_user += 1
                         key = "%s: user code %s" % (e.fn.qualname, _callee_s(d["func"]))
@@ -237,6 +290,10 @@ def check(ctx, rep):
                         rep.ob("R-LOCK-GC", "%s (weakref callback registered in %s): locks it takes are re-entrant" % (target.qualname, fi.qualname), not badk, "the callback acquires %s: when the collector runs it while this thread holds that lock (any allocation inside the critical section can trigger it) the thread waits for itself" % ", ".join("%s (%s)" % k for k in badk), where_of(target), None)
     rep.count("weakref callbacks examined", ngc, 4)
 
+    for k, v in reentry.items():
+        if k not in edges:
+            e_, p_, rname_, h_, xname = v
+            edges[k] = (e_, p_, rname_ + " (the delegate's submit() may run the callable inline, which may call %s.submit())" % xname, h_, ("attr", ("name", "<%s>" % xname), k[1][1]))
     # ---- layers and order
     layers = layer_classes(ctx)
     rep.count("layers", len(layers), 8)
